@@ -299,11 +299,20 @@ func rulesC12(w *World, r *Report) {
 				if debugC12 {
 					fmt.Println("DEBUG cond", funcName(dec), e)
 				}
-				if !regexp.MustCompile(`^\(len\(io/ioutil\.ReadAll\(.*\)#0\) == 0\)$`).MatchString(e) && !regexp.MustCompile(`^\(len\(io\.ReadAll\(.*\)#0\) == 0\)$`).MatchString(e) {
+				// "the body is empty", in any spelling: len(body) == 0 / < 1 / <= 0 on the true edge, != 0 / > 0 / >= 1 on the false edge
+				body := `len\((io/ioutil|io)\.ReadAll\(.*\)#0\)`
+				emptyEdge := -1
+				switch {
+				case regexp.MustCompile(`^\((0 == ` + body + `|` + body + ` <= 0|` + body + ` < 1)\)$`).MatchString(e):
+					emptyEdge = 0
+				case regexp.MustCompile(`^\((0 != ` + body + `|0 < ` + body + `|1 <= ` + body + `)\)$`).MatchString(e):
+					emptyEdge = 1
+				}
+				if emptyEdge < 0 {
 					continue
 				}
 				for _, ret := range returnsOf(dec) {
-					if !edgeDominates(b, b.Succs[0], ret.Block()) {
+					if !edgeDominates(b, b.Succs[emptyEdge], ret.Block()) {
 						continue
 					}
 					vals, complete := resultValues(ret, len(ret.Results)-1)
